@@ -259,8 +259,14 @@ def close(a, b, scale=None, tol=1e-10):
         return False
     if a.size == 0:
         return True
-    if not (np.all(np.isfinite(a)) and np.all(np.isfinite(b))):
-        return same(a, b)
+    fa, fb = np.isfinite(a), np.isfinite(b)
+    if not (np.all(fa) and np.all(fb)):
+        # non-finite entries must coincide exactly (same infinity / NaN at the same positions); the finite rest is compared as usual
+        if not np.array_equal(fa, fb) or not same(np.where(fa, 0.0, a), np.where(fb, 0.0, b)):
+            return False
+        if not fa.any():
+            return True
+        a, b = np.where(fa, a, 0.0), np.where(fb, b, 0.0)
     s = float(np.max(np.abs(b))) if scale is None else float(scale)
     s = max(s, float(np.max(np.abs(b))), 1e-300)
     return bool(np.max(np.abs(a - b)) <= tol * s)
